@@ -46,12 +46,12 @@ CHECKS = {
   "note": "identity through unique charge tags (re-tagged by the harness after replicate/replace); subset drops terms by documentation",
  },
  "C10": {
-  "technique": "exhaustive enumeration (every subset x listing orders x containers, pop at every position, two-step and copy-then-delete histories on a fixed family) + Hypothesis random structures up to hundreds of atoms, against an identity-tag model",
+  "technique": "exhaustive enumeration (every subset x listing orders x containers, pop at every position, two-step and copy-then-delete histories on a fixed family) + Hypothesis random structures up to 1200 atoms (up to 1200 deletions in one call), against an identity-tag model",
   "text": "For the family of n<=5 (quick) / n<=6 (thorough) structures every non-empty subset in three orders is enumerated completely; plus random typed structures up to 12/40 atoms. Survivors in order with all data; a term survives iff untouched, with the same tagged atoms, type and extra fields.",
   "note": "duplicate / out-of-range indices are outside the domain",
  },
  "C11": {
-  "technique": "exhaustive enumeration of all partial injective identity maps x modes on a fixed family + Hypothesis compatible pairs, against a resolved-term model",
+  "technique": "exhaustive enumeration of all partial injective identity maps x modes on a fixed family + Hypothesis compatible pairs, against a resolved-term model; longer histories (third fragment, first fragment again) with snapshot comparison of the fragments",
   "text": "Appended atoms in order, mapped atoms adopt type and extra fields, every term of other present once resolving to other's own coefficient text (or the shared id), same-atoms terms superseded forwards/backwards only, extra columns merged by label with '.'; default offsets, explicit offsets, repeated extension, shared ids; self emptied by deletion included.",
   "note": "pairs generated compatible per term kind; untyped kinds compared by type partition",
  },
@@ -61,7 +61,7 @@ CHECKS = {
   "note": "atom order of the result not asserted",
  },
  "C13": {
-  "technique": "Hypothesis typed structures (up to hundreds of atoms); independent LAMMPS data reader written in the harness + load round trip + write idempotence + second write after editing the object",
+  "technique": "Hypothesis typed structures (up to hundreds of atoms); independent LAMMPS data reader written in the harness + load round trip + write idempotence + second write after editing the object in place (labels, charge, position, coefficient row, cell shear); non-atomic masses",
   "text": "The written text is parsed by mv/ref_lammps.py (no shared code): counts, type counts, box/tilt, masses, atoms, terms and coefficient rows must state the structure; load_lmpdat must reproduce ids, positions, cell, charges, groups, masses, labels, terms and coefficients token for token; second and third write byte-identical; path and file-object I/O agree; tables with 10-12 rows, id gaps, tiny tilts, both atom styles.",
   "note": "elements after reload are C14's business; printed precision %10.6f",
  },
@@ -71,17 +71,17 @@ CHECKS = {
   "note": "trusts the mass table as data; boundary cases within 1e-9 of the tolerance accept either answer",
  },
  "C15": {
-  "technique": "Hypothesis round trip write->read->write with textual idempotence + hand-emitted CIF variants for the reader + ase.io.read as independent reader",
+  "technique": "Hypothesis round trip write->read->write with textual idempotence, by file object and through one re-used path + hand-emitted CIF variants for the reader + ase.io.read as independent reader",
   "text": "Typed structures with all term kinds incl. impropers and extra columns in ortho/tilted/rotated cells, atoms inside/outside/on the boundary, fractional and Cartesian output; reader inputs with s.u. parentheses, Cartesian-only files, permuted tags, boundary/negative/large fractional coordinates, P1 spellings and 16 non-P1 symbols.",
   "note": "PyCifRW 5.0.1 as installed; ASE shares cellpar_to_cell with mofun",
  },
  "C16": {
-  "technique": "Hypothesis-generated CML documents loaded five ways from one re-used path; direct-statement oracle",
+  "technique": "Hypothesis-generated CML documents loaded eleven ways (paths, text / binary handles, in-memory files, a rewound handle) from one re-used path; direct-statement oracle",
   "text": "One atom per entry in order with exactly the parsed coordinates and element, one bond per entry via index(ref), zero bonds when none, all five load routes equal; id schemes sequential/shuffled/sparse/arbitrary/positional traps, tiny/huge/negative-zero coordinates.",
   "note": "namespace-free documents only (as all repository files)",
  },
  "C17": {
-  "technique": "exhaustive enumeration over all element pairs at cutoff*(1 +- d) through home/face/edge/corner images + Hypothesis structures; brute-force 5x5x5 minimum-image oracle; shift/permutation metamorphic relations",
+  "technique": "exhaustive enumeration over all element pairs at cutoff*(1 +- d) through home/face/edge/corner images + Hypothesis structures; brute-force 5x5x5 minimum-image oracle; shift/permutation metamorphic relations; detect-edit-detect-substitute-detect histories on one object",
   "text": "All 4753 unordered pairs of the radius table x 6 near-cutoff distances on no cell / orthorhombic / tilted cells are enumerated in both tiers; result rows must be exactly the bonded pairs, each once, i<j.",
   "note": "radius table taken from the module; non-metal list pinned in the harness",
  },
@@ -91,7 +91,7 @@ CHECKS = {
   "note": "the reference shares the reading of the paper with the code; invariants and reversal are independent",
  },
  "C19": {
-  "technique": "Hypothesis-generated bond graphs without 3-rings x UFF type palettes x renamings / list permutations / exclusion sets; brute-force enumeration and partition/parameter/renaming invariants",
+  "technique": "Hypothesis-generated bond graphs without 3-rings x UFF type palettes x renamings / list permutations / exclusion sets; brute-force enumeration and partition/parameter/renaming invariants; in-place relisting / rewiring of one bond list object and repeated retyping of one Atoms object",
   "text": "calc_angles / calc_dihedrals must equal brute-force enumeration each exactly once; typing partition = same sequence up to reversal (+ M); coefficient text of each term = parameters of its own sequence; undefined torsions dropped and only they; exclusion honoured; invariant under renaming and list order; retype and pair tables agree with per-atom types.",
   "note": "parameter functions taken as given (C18); M counted before exclusion",
  },
